@@ -3691,10 +3691,14 @@ class mulgrid(object):
             elif (nn, ns) == (7, 3):
                 last2 = [col.index_minus(i, 2) for i in straight]
                 start = [s for s, l in zip(straight, last2) if l not in straight][0]
-                return self.subdivide_column(column_name, start,
-                                             [(0, 1, 2), (2, 3, 4),
-                                              (0, 2, 4), (4, 5, 6, 0)],
-                                             chars, spaces)
+                # special case applies only if the straight nodes are on three
+                # different sides, i.e. are alternate nodes:
+                if all([col.index_plus(start, i) in straight for i in [2, 4]]):
+                    return self.subdivide_column(column_name, start,
+                                                 [(0, 1, 2), (2, 3, 4),
+                                                  (0, 2, 4), (4, 5, 6, 0)],
+                                                 chars, spaces)
+                else: return self.triangulate_column(column_name, chars, spaces)
             elif (nn, ns) == (8, 4):
                 return self.subdivide_column(column_name, straight[0],
                                              [(1, 2, 'c', 0), (2, 3, 4, 'c'),
